@@ -142,4 +142,12 @@ CHECKS = {
         "level_text": 'Decides that the precedence tables, the climbing loop and the prefix levels realise the stated precedence and associativity, and that operator fusion is constrained. That table-driven climbing equals the reference grammar given a correct table is the standard result, not re-proved.',
         "level_note": 'Trusted: MIR of the nightly front end.',
     },
+    "C20": {
+        "modules": ["rules_c20"],
+        "explanation": 'Sibling-agreement and shape rules on the MIR of the tokenizer, parser and converter: every name-lookup site (HashMap::get / HashSet::contains on the static keyword/function/aggregate tables, ValueType::from_str, string equality between a literal and a non-literal) has an operand whose backward provenance passes through to_lowercase; the clause dispatch of parse_select (WHERE/INNER/OUTER/GROUP/HAVING/LIMIT arms read from the Keyword discriminant switch) sits in one loop and every arm returns to it; the statement types carry no TokenLocation; characters inside string literals are pushed unmodified and no case folding precedes the literal branch.',
+        "trusted": ["rustc nightly MIR + trait resolution", "dependencies behave as documented"],
+        "technique": 'static provenance (def-use) analysis of lookup operands, arm-table / loop-membership rule, type-containment rule on MIR',
+        "level_text": 'Decides the structural necessary conditions: no case-sensitive name lookup, order-free clause dispatch, no layout data in statements, verbatim literals. The relation between pairs of texts is not compared.',
+        "level_note": 'Trusted: MIR of the nightly front end; identifier-vs-identifier comparisons (table/column names) are case-sensitive by design.',
+    },
 }
